@@ -618,7 +618,39 @@ func ruleCloseWritesBounded(c *Ctx, r *Report) {
 	}
 	r.Sites += len(fn.Blocks)
 	n := 0
-	for _, b := range fn.Blocks {
+	// the close path: close itself and the helpers of its package it calls without handing them
+	// a context (a helper that is handed one is judged at the call that hands it over)
+	takesCtx := func(f *ssa.Function) bool {
+		for _, p := range f.Params {
+			if strings.HasSuffix(namedOrType(p.Type()), "context.Context") {
+				return true
+			}
+		}
+		return false
+	}
+	path := []*ssa.Function{fn}
+	seenFn := map[*ssa.Function]bool{fn: true}
+	for i := 0; i < len(path) && i < 64; i++ {
+		for _, b := range path[i].Blocks {
+			for _, in := range b.Instrs {
+				ci, ok := in.(ssa.CallInstruction)
+				if !ok {
+					continue
+				}
+				callee := ci.Common().StaticCallee()
+				if callee == nil || seenFn[callee] || callee.Pkg != fn.Pkg || len(callee.Blocks) == 0 || takesCtx(callee) {
+					continue
+				}
+				seenFn[callee] = true
+				path = append(path, callee)
+			}
+		}
+	}
+	var blocks []*ssa.BasicBlock
+	for _, f := range path {
+		blocks = append(blocks, f.Blocks...)
+	}
+	for _, b := range blocks {
 		for _, in := range b.Instrs {
 			call, ok := in.(*ssa.Call)
 			if !ok {
